@@ -40,9 +40,15 @@ def view_cases(rng):
     kinds = {x: rng.choice(['filter', 'sub', 'selected']) for x in bad}
     nones = set(x for x in range(n) if x not in bad and rng.random() < 0.25)
 
+    # the exception that is not selected: ordinary classes, among them the lookup errors that stages of the
+    # library catch for their own purposes (never IndexError: BatchDataset documents that one as its end mark)
+    other_cls = rng.choice([ValueError, ValueError, KeyError, LookupError, RuntimeError, ZeroDivisionError, TypeError, AttributeError])
+    # optionally a batch stage between the failing map and the prefetch (the pool path builds batches by index)
+    bs = rng.choice([None, None, 1, 2, 3])
+
     def f(x):
         if x == other:
-            raise ValueError(x)
+            raise other_cls(x)
         if x in bad:
             raise {'filter': FilterException, 'sub': Sub, 'selected': Selected}[kinds[x]](x)
         return None if x in nones else x * 10          # None is a legal example value
@@ -53,21 +59,34 @@ def view_cases(rng):
     caught = (FilterException,) if sel is True else (sel if isinstance(sel, tuple) else (sel,))
     cls_of = {'filter': FilterException, 'sub': Sub, 'selected': Selected}
     want_vals, want_err = [], None
-    for x in range(n):
-        if x == other:
-            want_err = 'ValueError'
+    for g0 in range(0, n, bs or 1):
+        group, dropped = [], False
+        for x in range(g0, min(n, g0 + (bs or 1))):
+            if x == other:
+                if issubclass(other_cls, caught):
+                    dropped = True
+                    break
+                want_err = other_cls.__name__
+                break
+            if x in bad:
+                if issubclass(cls_of[kinds[x]], caught):
+                    dropped = True          # (with a batch stage the whole batch is the failing example)
+                    break
+                want_err = 'FilterException' if kinds[x] in ('filter', 'sub') else 'Selected'
+                break
+            group.append(None if x in nones else x * 10)
+        if want_err is not None:
             break
-        if x in bad:
-            if issubclass(cls_of[kinds[x]], caught):
-                continue
-            want_err = 'FilterException' if kinds[x] in ('filter', 'sub') else 'Selected'
-            break
-        want_vals.append(None if x in nones else x * 10)
+        if not dropped:
+            want_vals += [group] if bs else group
     keyed = rng.random() < 0.4
     src = {f'k{j}': j for j in range(n)} if keyed else list(range(n))
 
     def mk():
-        return lazy_dataset.new(src).map(f).prefetch(w, b, catch_filter_exception=sel)
+        d = lazy_dataset.new(src).map(f)
+        if bs:
+            d = d.batch(bs)
+        return d.prefetch(w, b, catch_filter_exception=sel)
     views = {
         'direct': lambda: mk(),
         'copy': lambda: mk().copy(),
@@ -76,11 +95,11 @@ def view_cases(rng):
         'map_above_copy': lambda: mk().map(lambda x: x).copy(freeze=True),
         'lazy_apply': lambda: mk().apply(lambda d: d, lazy=True),
     }
-    if keyed and w == 1:
+    if keyed and w == 1 and not bs:
         # the keyed views of the single-thread path (pool prefetch has no keys)
         views['items'] = lambda: (kv[1] for kv in mk().items())
         views['copy_items'] = lambda: (kv[1] for kv in mk().copy(freeze=True).items())
-    if keyed:
+    if keyed and not bs:
         csel = caught if len(caught) > 1 else caught[0]
         views['catch_items'] = lambda: (kv[1] for kv in lazy_dataset.new(src).map(f).catch(csel).items())
         views['catch_prefetch_items'] = lambda: (kv[1] for kv in lazy_dataset.new(src).map(f).catch(csel).prefetch(1, b).items())
@@ -90,7 +109,7 @@ def view_cases(rng):
             got = stream(mkv)
             if got != {'vals': want_vals, 'err': want_err}:
                 fails.append(('catch_filter_exception_view', {'view': name, 'n': n, 'raising_selected': sorted(bad), 'raising_other': other,
-                                                               'workers': w, 'buffer': b, 'selection': repr(sel), 'keyed': keyed,
+                                                               'workers': w, 'buffer': b, 'selection': repr(sel), 'keyed': keyed, 'other_class': other_cls.__name__, 'batch': bs,
                                                                'got': got, 'serial_reference': {'vals': want_vals, 'err': want_err}}))
                 break
     return fails
